@@ -210,6 +210,32 @@ func genC07(seed, index uint64, tier string) *Plan {
 			}
 		}
 	}
+	// some manifests carry a managed-by label / release annotations of their own with other values: Helm's stamp wins
+	if g.Chance(0.3) {
+		for ci := range p.Charts {
+			for si := range p.Charts[ci].Slots {
+				s := &p.Charts[ci].Slots[si]
+				if s.Hook != nil || !g.Chance(0.4) {
+					continue
+				}
+				if g.Chance(0.6) {
+					if s.Labels == nil {
+						s.Labels = map[string]string{}
+					}
+					s.Labels["app.kubernetes.io/managed-by"] = g.Pick("kustomize", "Tiller", "helm")
+				}
+				if g.Chance(0.5) {
+					if s.Annots == nil {
+						s.Annots = map[string]string{}
+					}
+					s.Annots["meta.helm.sh/release-name"] = g.Pick("someone-else", "REL")
+					if g.Chance(0.5) {
+						s.Annots["meta.helm.sh/release-namespace"] = "elsewhere"
+					}
+				}
+			}
+		}
+	}
 	ho := &HistoryOpts{NVersions: len(p.Charts), Flags: true, WaitP: 0.2, AtomicP: 0.1, FirstInst: 1}
 	n := 1 + g.Weighted(4, 4, 2)
 	for i := 0; i < n; i++ {
